@@ -603,6 +603,12 @@ func HTMLDoc(r *rand.Rand) Doc {
 	if r.Intn(10) == 0 {
 		d.sb.WriteString(quoteStress(r))
 	}
+	if r.Intn(12) == 0 {
+		d.sb.WriteString(collapsedBorderStress(r))
+	}
+	if r.Intn(12) == 0 {
+		d.sb.WriteString(svgStrokeStress(r))
+	}
 	if r.Intn(10) != 0 {
 		d.sb.WriteString("</body></html>")
 	}
@@ -700,5 +706,69 @@ func quoteStress(r *rand.Rand) string {
 			sb.WriteString(`<p class="` + c + `">p <q class="` + Pick(r, []string{"qa", "qb", "qc"}) + `">q</q></p>`)
 		}
 	}
+	return sb.String()
+}
+
+// collapsedBorderStress writes tables in the collapsing border model whose grid has degenerate
+// segments: empty and zero-height rows, empty cells, zero-width columns, every border style
+// (two-pass styles ridge / groove / double included) and widths from 0 to thick on table, rows, cells.
+func collapsedBorderStress(r *rand.Rand) string {
+	styles := []string{"solid", "ridge", "groove", "double", "dotted", "dashed", "inset", "outset", "hidden", "none"}
+	border := func() string {
+		return Pick(r, []string{"0", "1px", "2px", "5px", "thick", "thin"}) + " " + Pick(r, styles) + " " + Pick(r, []string{"red", "blue", "black", "transparent"})
+	}
+	var sb strings.Builder
+	sb.WriteString("<!--gen:collapsed-borders--><table style=\"border-collapse: collapse; border: " + border() + "; width: " + Pick(r, []string{"auto", "100px", "0", "100%"}) + "\">")
+	if r.Intn(3) == 0 {
+		sb.WriteString("<col style=\"width: 0; border: " + border() + "\"><col>")
+	}
+	rows := 1 + r.Intn(4)
+	for i := 0; i < rows; i++ {
+		switch r.Intn(4) {
+		case 0:
+			sb.WriteString("<tr style=\"border: " + border() + "\"></tr>")
+			continue
+		case 1:
+			sb.WriteString("<tr style=\"height: 0; border: " + border() + "\">")
+		default:
+			sb.WriteString("<tr>")
+		}
+		cells := 1 + r.Intn(3)
+		for j := 0; j < cells; j++ {
+			st := "border: " + border()
+			if r.Intn(3) == 0 {
+				st += "; border-" + Pick(r, []string{"left", "right", "top", "bottom"}) + ": " + border()
+			}
+			if r.Intn(4) == 0 {
+				st += "; padding: 0; height: 0; width: 0"
+			}
+			sb.WriteString("<td style=\"" + st + "\"" + Pick(r, []string{"", "", " rowspan=2", " colspan=2"}) + ">" + Pick(r, []string{"", "", "x", "cell"}) + "</td>")
+		}
+		sb.WriteString("</tr>")
+	}
+	sb.WriteString("</table>")
+	return sb.String()
+}
+
+// svgStrokeStress writes an inline SVG whose shapes carry degenerate stroke dashing: all-zero,
+// negative, odd-count and huge dash arrays with negative / huge offsets, zero and negative widths.
+func svgStrokeStress(r *rand.Rand) string {
+	var sb strings.Builder
+	sb.WriteString("<!--gen:svg-stroke--><svg width=\"60\" height=\"40\" viewBox=\"0 0 60 40\">")
+	n := 1 + r.Intn(4)
+	for i := 0; i < n; i++ {
+		attrs := " stroke=\"" + Pick(r, []string{"red", "blue", "none", "currentColor"}) + "\" stroke-width=\"" + Pick(r, []string{"1", "0", "3", "-1", "1e3"}) + "\" stroke-dasharray=\"" + Pick(r, []string{"0 0", "0", "0,0,0", "1 0", "0 1", "5 2", "5 2 1", "none", "-1 2", "1e30 1", "0.0001", "5%"}) + "\" stroke-dashoffset=\"" + Pick(r, []string{"-1", "-5", "0", "3", "1e30", "-1e30", "-0.5", "50%"}) + "\" stroke-linecap=\"" + Pick(r, []string{"butt", "round", "square"}) + "\""
+		switch r.Intn(4) {
+		case 0:
+			sb.WriteString("<line x1=\"0\" y1=\"" + Pick(r, []string{"5", "10"}) + "\" x2=\"50\" y2=\"10\"" + attrs + "/>")
+		case 1:
+			sb.WriteString("<rect x=\"2\" y=\"2\" width=\"" + Pick(r, []string{"20", "0"}) + "\" height=\"10\" fill=\"none\"" + attrs + "/>")
+		case 2:
+			sb.WriteString("<path d=\"M5 5 L30 30 L5 30 Z\" fill=\"none\"" + attrs + "/>")
+		default:
+			sb.WriteString("<circle cx=\"20\" cy=\"20\" r=\"" + Pick(r, []string{"8", "0"}) + "\" fill=\"none\"" + attrs + "/>")
+		}
+	}
+	sb.WriteString("</svg>")
 	return sb.String()
 }
